@@ -1,6 +1,7 @@
 from props import job
 
 PROP = dict(
+    technique='rapid-generated HTLC sets/heights/preimage knowledge on a real ChannelArbitrator; decision band (MUST/MAY) oracle written from the property text; resolution oracle per confirmed commitment (one resolver per output, exactly-once fail-backs)',
     level="exploration",
     rule=("Synthesised channel states: a universe of <=6 HTLCs, each in a "
           "protocol-reachable life-cycle stage on the three commitments (ours, "
